@@ -53,6 +53,7 @@ type Exec struct {
 	seqCtr     int
 	ghostDone  map[string]bool
 	assertSeen map[*Clause]bool
+	knownObl   map[string]bool
 	callOrds   map[*ssa.Function]map[ssa.Instruction]int
 	ghosts     map[string]*Ghost
 	ghostSig   map[string][]string
